@@ -3,5 +3,7 @@
 EXTENDS LlcpResolve
 Peer3 == [n \in {"n1", "n2", "n3"} |-> CASE n = "n1" -> 16 [] n = "n2" -> 17 [] OTHER -> 0]
 \* names of 5, 5 and 1 octets against an SNL budget of 12: one 5-octet name fits with the 1-octet name, not with the other
+\* the transaction ids are interchangeable (random.choice): model values under symmetry
+TidSym == Permutations(Tids)
 Len3 == [n \in {"n1", "n2", "n3"} |-> IF n = "n3" THEN 1 ELSE 5]
 =============================================================================
